@@ -11,7 +11,8 @@ TLC is the judge everywhere:
       Trace_Cells "hist"/"cps": call histories on the real process-wide caches that exceed both
       capacities (eviction), interleave uncached long strings and re-measure evicted / resident keys;
       Trace_LruCache: TLC-generated (M2) and random histories on a real LRUCache of capacity 2..4;
-      Trace_Segments: adjust_line_length / split_and_crop_lines / set_shape / split_lines / simplify.
+      Trace_Segments: adjust_line_length / split_and_crop_lines / set_shape / split_lines / simplify /
+      get_line_length / get_shape.
 Python only enumerates, calls Rich, and projects text to code points / styles to ids.
 """
 import contextlib
@@ -137,7 +138,7 @@ def m1(pick):
          ["Hit", "MissInsert", "MissEvict", "MissUncached"]),
         ("MC_LruCache", "CONSTANTS\n  Capacity = 3\n  Threshold = 2\n  MaxStr = 3\n  GenDepth = 0\n",
          ["Hit", "MissInsert", "MissEvict", "MissUncached"]),
-        ("MC_Segments", "CONSTANTS\n  MaxSegs = %d\n  MaxCells = 2\n  MaxChars = %d\n  MaxN = 4\n" % pick((2, 2), (3, 3)),
+        ("MC_Segments", "CONSTANTS\n  MaxSegs = %d\n  MaxCells = 2\n  MaxChars = %d\n  MaxN = 4\n" % pick((2, 3), (3, 3)),
          ["AddSegment"]),
     ]
 
@@ -210,7 +211,8 @@ def codepoints(chk, table, batch):
             n = len(rec["obs"])
             chk.traces += n
             chk.evaluations += n
-            chk.distinct.add("cp:%s:%d" % (rec.get("lo", rec.get("cps", [0])[0]), n))
+            if n:
+                chk.distinct.add("cp:%s:%d" % (rec["lo"] if "lo" in rec else rec["cps"][0], n))
             if v != "ok":
                 m = v.split("cp ")[-1].split(":")[0]
                 chk.reject(cp_sig(v), v, dict(part="cps", cps=[int(m)] if m.isdigit() else rec.get("cps", [])[:50]))
@@ -316,7 +318,7 @@ def add_strs(chk, batch, cases, label):
 def strings(chk, table, batch):
     alpha = chk.pick(QUICK_ALPHA, THOROUGH_ALPHA)
     maxlen = 4
-    chk.notes["strings_exhaustive"] = "all %d strings over %d concrete characters (ASCII, space, CJK, emoji, combining, ZWJ, control, NBSP%s) up to length %d x every size 0..len+2 x chop widths 2,3,5 x start columns 0,1,w" % (
+    chk.notes["strings_exhaustive"] = "all %d strings over %d concrete characters (ASCII, space, CJK, emoji, combining, ZWJ, control, NBSP%s) up to length %d x every size 0..2*len+2 x chop widths 2,3,5 x start columns 0,1,w" % (
         sum(len(alpha) ** k for k in range(maxlen + 1)), len(alpha), ", ..." if chk.thorough else "", maxlen)
     cases = []
     chopset = [(2, 0), (2, 1), (2, 2), (3, 0), (3, 1), (3, 3), (5, 0), (5, 1), (5, 5)]
@@ -516,7 +518,7 @@ def small_caches(chk, table):
     universe = [(), (768,), (97,), (19968,), (97, 97), (768, 19968)]
     cases = []
     depth = chk.pick(4, 5)
-    for cap in chk.pick([2], [2, 3]):
+    for cap in ([] if chk.replay_only else chk.pick([2], [2, 3])):
         cfgt = ("CONSTANTS\n  Capacity = %d\n  Threshold = 3\n  MaxStr = 3\n  GenDepth = %d\n"
                 "SPECIFICATION Spec\nCONSTRAINT Emit\nCHECK_DEADLOCK FALSE\n" % (cap, depth))
         behs, r = tlc.behaviours("MC_LruCache", cfg_text=cfgt, tag="c13gen")
@@ -528,7 +530,7 @@ def small_caches(chk, table):
             cases.append((cap, [tuple(s) for s in b["beh"]] + universe))
         chk.notes.setdefault("tlc_generated_histories", []).append(dict(capacity=cap, depth=depth, n=len(behs)))
     pool = universe + [(97, 768), (19968, 19968), (32,), (0x1F63D,), (0x200D,), (98,), (0x4E01,), tuple([97] * 65), tuple([0x4E00] * 64)]
-    for _ in range(chk.pick(400, 5000)):
+    for _ in range(0 if chk.replay_only else chk.pick(400, 5000)):
         cap = chk.rng.randint(1, 4)
         sub = chk.rng.sample(pool, chk.rng.randint(2, len(pool)))
         calls = [chk.rng.choice(sub) for _ in range(chk.rng.randint(5, 30))]
@@ -629,6 +631,10 @@ def exec_seg(env, case):
             return "rl", [env.pline(l) for l in S.split_lines(mk(case["segs"]))]
         if k == "simplify":
             return "r", env.pline(list(S.simplify(mk(case["segs"]))))
+        if k == "measure":
+            lines = [mk(l) for l in case["lines"]]
+            w, h = S.get_shape(lines)
+            return "m", dict(lens=[int(S.get_line_length(l)) for l in lines], w=int(w), h=int(h))
         raise RuntimeError("unknown segment operation %r" % k)
 
     out, err = guarded(call)
@@ -636,6 +642,8 @@ def exec_seg(env, case):
         return None
     if err:
         rec["err"] = err
+    elif out[0] == "m":
+        rec.update(out[1])
     else:
         rec[out[0]] = out[1]
     return rec
@@ -730,11 +738,12 @@ def seg_cases(chk):
         lines_ = [rnd_segs(False, 3) for _ in range(rng.randint(0, 4))]
         h = rng.choice([-1, -1, 0, 1, len(lines_), len(lines_) + 2])
         cases.append(dict(k="shape", lines=lines_, n=rng.randint(0, 10), h=h, ps=rng.randint(0, 3)))
+        cases.append(dict(k="measure", lines=lines_))
     return cases
 
 
 def nontrivial_seg(case):
-    if case["k"] == "shape":
+    if case["k"] in ("shape", "measure"):
         return any(case["lines"])
     return bool(case.get("line") or case.get("segs"))
 
